@@ -236,6 +236,12 @@ _BINOPS = {
     ast.BitAnd: operator.and_, ast.BitXor: operator.xor, ast.LShift: operator.lshift, ast.RShift: operator.rshift,
     ast.MatMult: operator.matmul,
 }
+_DUNDER = {
+    ast.Add: ('__add__', '__radd__'), ast.Sub: ('__sub__', '__rsub__'), ast.Mult: ('__mul__', '__rmul__'),
+    ast.Mod: ('__mod__', '__rmod__'), ast.BitOr: ('__or__', '__ror__'), ast.BitAnd: ('__and__', '__rand__'),
+    ast.Div: ('__truediv__', '__rtruediv__'), ast.FloorDiv: ('__floordiv__', '__rfloordiv__'),
+}
+_BINOP_DUNDERS = _DUNDER
 _CMPOPS = {
     ast.Eq: operator.eq, ast.NotEq: operator.ne, ast.Lt: operator.lt, ast.LtE: operator.le,
     ast.Gt: operator.gt, ast.GtE: operator.ge,
@@ -260,6 +266,7 @@ class Interp:
         self.max_depth = 400
         self.fn_name = '?'
         self.frame_stack = []
+        self.cover_file = None
         self.loop_index_stack = []     # index terms of the enclosing symbolic loops (arbitrary iteration)
         self.collect = None            # (code object, YSeq): the generator function under verification
 
@@ -299,6 +306,15 @@ class Interp:
             raise Unsupported('nonlocal %s not found' % name)
         if name in info.global_names:
             raise Unsupported('assignment to global %s' % name)
+        if type(value) is list and self.reg.local_shapes:
+            declared = self.reg.local_shapes.get(info)
+            if declared and name in declared:
+                # contract-directed representation: this local list is a symbolic mutable list from the start
+                from .mlist import MList, from_concrete
+                if value:
+                    value = from_concrete(self, value, name)
+                else:
+                    value = MList(self, self.st.fresh_name(name), declared[name].shape())
         frame.locals[name] = value
 
     @staticmethod
@@ -431,6 +447,11 @@ class Interp:
             return self.construct(f, list(args), kwargs)
         if isinstance(f, (staticmethod,)):
             return self.call(f.__func__, args, kwargs)
+        # --- a callable instance of a repository class: its __call__ is interpreted
+        if not isinstance(f, (types.BuiltinFunctionType, types.MethodDescriptorType, types.ModuleType)):
+            cm = _static_lookup(type(f), '__call__')
+            if cm is not None and isinstance(cm[0], types.FunctionType) and _is_repo_function(cm[0]):
+                return self.call_function_object(cm[0], [f] + list(args), kwargs, cm[1], bound_self=f)
         # --- builtins, method descriptors, other callables
         return self.call_native(f, list(args), kwargs)
 
@@ -441,7 +462,13 @@ class Interp:
         # contract?
         c = self.reg.contract_for(func)
         if c is not None and not c.inline:
-            return self.reg.apply_contract(self, c, func, args, kwargs)
+            # a contract stated in ANOTHER sidecar module speaks about arguments of its own shapes only:
+            # for arguments of other shapes it says nothing and the real body is interpreted instead
+            cur = getattr(self.reg, 'current_module', None)
+            policy = getattr(cur, 'foreign_contracts', 'apply')
+            if getattr(c, 'module', None) is cur or policy == 'apply' or \
+                    (policy == 'fit' and self.reg.args_fit_contract(self, c, func, args, kwargs)):
+                return self.reg.apply_contract(self, c, func, args, kwargs)
         m = self.reg.model_for(func)
         if m is not None:
             self.st.used_models.add(_qn(func))
@@ -470,6 +497,9 @@ class Interp:
         if isinstance(selfobj, str) and (any(contains_sym(a) for a in args)):
             from . import strings
             return strings.call_method(self, SStr(z3.StringVal(selfobj)), name, args, kwargs)
+        if name == '__init__' and isinstance(selfobj, BaseException) and type(f).__name__ == 'method-wrapper':
+            # BaseException.__init__ only stores its arguments in .args
+            return self._native(f, args, kwargs)
         if selfobj is not None and not isinstance(selfobj, types.ModuleType):
             if (type(selfobj), name) in _SAFE_NATIVE_METHODS:
                 if type(selfobj) is dict and name in ('get', 'pop', 'setdefault', '__contains__') and args \
@@ -498,6 +528,7 @@ class Interp:
         if m is None:
             m = models.lookup_model(cls)
         if m is not None:
+            self.st.used_models.add(_qn(cls))
             return m(self, args, kwargs)
         if issubclass(cls, enum.Enum) or not _is_repo_class(cls):
             if issubclass(cls, BaseException) and not _is_repo_class(cls):
@@ -623,6 +654,13 @@ class Interp:
             return BoundMethod(v.__func__, type(obj) if not isinstance(obj, type) else obj, k)
         if isinstance(v, property):
             return self.call_function_object(v.fget, [obj], {}, k)
+        if hasattr(type(v), '__get__') and not isinstance(obj, type):
+            # a native descriptor found in class k (e.g. Exception.__init__ reached through super()):
+            # bind THAT descriptor -- getattr(obj, name) would start again at the most derived class
+            try:
+                return v.__get__(obj, type(obj))
+            except Exception as e:
+                raise PyRaise(e)
         return self._native_getattr(obj, name)
 
     def _native_getattr(self, obj, name):
@@ -731,8 +769,19 @@ class Interp:
         if isinstance(b, SBool):
             b = SInt(z3.If(b.t, 1, 0))
         sa, sb = isinstance(a, Sym), isinstance(b, Sym)
+        if (sa or sb) and not (isinstance(a, Opaque) or isinstance(b, Opaque)):
+            # a user-defined operator of a repository / model class with a symbolic operand (p / name)
+            r = self._user_binop(opcls, a, b)
+            if r is not NotImplemented:
+                return r
         if not sa and not sb:
             if isinstance(a, Opaque) or isinstance(b, Opaque):
+                # operators of opaque objects are methods of their interface (__truediv__, __add__, ...)
+                dn = _DUNDER.get(opcls)
+                if dn is not None and isinstance(a, Opaque) and self.reg.opaque_has(self, a, dn[0]):
+                    return self.reg.call_opaque(self, a, dn[0], [b], {})
+                if dn is not None and isinstance(b, Opaque) and self.reg.opaque_has(self, b, dn[1]):
+                    return self.reg.call_opaque(self, b, dn[1], [a], {})
                 raise Unsupported('binary operator on opaque object')
             if opcls is ast.Mod and isinstance(a, str) and contains_sym(b):
                 return SStr(self.st.fresh_str('fmt'))
@@ -777,13 +826,21 @@ class Interp:
         raise Unsupported('binary operator %s on %r, %r' % (opcls.__name__, type(a).__name__, type(b).__name__))
 
     def _user_binop(self, opcls, a, b):
-        name = {ast.Add: '__add__', ast.Sub: '__sub__', ast.Mult: '__mul__', ast.Mod: '__mod__',
-                ast.BitOr: '__or__', ast.BitAnd: '__and__'}.get(opcls)
-        if name is None or isinstance(a, (int, str, list, tuple, dict, float, type(None))):
+        names = _DUNDER.get(opcls)
+        if names is None:
             return NotImplemented
-        m = _static_lookup(type(a), name)
-        if m is not None and isinstance(m[0], types.FunctionType) and _is_repo_function(m[0]):
-            return self.call_function_object(m[0], [a, b], {}, m[1])
+        plain = (int, str, list, tuple, dict, float, type(None), Sym)
+        if not isinstance(a, plain):
+            m = _static_lookup(type(a), names[0])
+            if m is not None and isinstance(m[0], types.FunctionType) and _is_repo_function(m[0]):
+                r = self.call_function_object(m[0], [a, b], {}, m[1])
+                if r is not NotImplemented:
+                    return r
+        if not isinstance(b, plain):
+            # reflected operator of the right operand ('name' / path)
+            m = _static_lookup(type(b), names[1])
+            if m is not None and isinstance(m[0], types.FunctionType) and _is_repo_function(m[0]):
+                return self.call_function_object(m[0], [b, a], {}, m[1])
         return NotImplemented
 
     def eq(self, a, b):
@@ -889,6 +946,8 @@ class Interp:
             raise PyRaise(e)
 
     def is_(self, a, b):
+        if a is b and isinstance(a, Sym):
+            return True       # the very same symbolic value
         if isinstance(a, SOpt):
             if b is None:
                 return wrap(a.is_none)
@@ -897,7 +956,12 @@ class Interp:
             return self.is_(b, a)
         if isinstance(a, SChoice):
             if isinstance(b, SChoice):
-                return self.is_(self.resolve(a), b)
+                # identical iff both select the same object: no case split needed
+                hits = [z3.And(a.idx == i, b.idx == j) for i, x in enumerate(a.alts) for j, y in enumerate(b.alts)
+                        if x is y]
+                if not hits:
+                    return False
+                return wrap(z3.Or(*hits) if len(hits) > 1 else hits[0])
             hits = [a.idx == i for i, alt in enumerate(a.alts) if alt is b]
             if not hits:
                 return False
@@ -1090,6 +1154,19 @@ class Interp:
 
     def e_IfExp(self, node, frame):
         c = self.eval(node.test, frame)
+        if self.st.no_fork:
+            # inside a quantifier body a case split is not possible: a conditional expression with scalar
+            # branches becomes an if-then-else term (each branch evaluated under its condition)
+            t = self.truth(c)
+            if not isinstance(t, bool):
+                with self.st.scope(t.t):
+                    a = self.eval(node.body, frame)
+                with self.st.scope(z3.Not(t.t)):
+                    b = self.eval(node.orelse, frame)
+                ka, kb = _kind(a), _kind(b)
+                if ka is not None and ka == kb and ka != 'none':
+                    return wrap(z3.If(t.t, to_z3(a), to_z3(b)))
+                raise Unsupported('conditional expression with non-scalar branches inside a quantifier body')
         if self.branch(c):
             return self.eval(node.body, frame)
         return self.eval(node.orelse, frame)
@@ -1291,6 +1368,20 @@ class Interp:
             self._comp(node.generators, 0, frame, frame.locals, lambda fr: out.append(self.eval(node.elt, fr)),
                        first_iter=src)
             return out
+        if len(node.generators) == 1:
+            # [f(x) for x in xs if p(x)] over a symbolic sequence: a filtered sub-sequence (as for generator
+            # expressions)
+            src = self.eval(node.generators[0].iter, frame)
+            if isinstance(src, (SOpt, SChoice)):
+                src = self.resolve(src)
+            from . import models as _models
+            if isinstance(src, (SList, _models.SIter, _models.SEnumerate)):
+                from . import seqs
+                return seqs.filter_comprehension(self, node, frame, src)
+            out = []
+            self._comp(node.generators, 0, frame, frame.locals, lambda fr: out.append(self.eval(node.elt, fr)),
+                       first_iter=src)
+            return out
         out = []
         self._comp(node.generators, 0, frame, frame.locals, lambda fr: out.append(self.eval(node.elt, fr)))
         return out
@@ -1436,7 +1527,19 @@ class Interp:
         return None
 
     def s_Return(self, node, frame):
-        return ('return', self.eval(node.value, frame) if node.value is not None else None)
+        try:
+            v = self.eval(node.value, frame) if node.value is not None else None
+        except PyRaise:
+            # `return f(...)` whose expression raises (e.g. `return self.error(...)`): the statement was reached
+            self._reached(node, frame)
+            raise
+        self._reached(node, frame)
+        return ('return', v)
+
+    def _reached(self, node, frame):
+        """reachability cover: exit statements of the function under verification reached on this path"""
+        if frame.info.filename == self.cover_file:
+            self.st.reached.add(node.lineno)
 
     def s_Break(self, node, frame):
         return ('break',)
@@ -1465,7 +1568,7 @@ class Interp:
         t = node.target
         if isinstance(t, ast.Name):
             cur = self.lookup(self.mangle(t.id, frame.info.class_name), frame)
-            new = self._aug(type(node.op), cur, self.eval(node.value, frame))
+            new = self._aug(type(node.op), cur, self.eval(node.value, frame), holder=frame.locals)
             self.store_name(self.mangle(t.id, frame.info.class_name), new, frame)
         elif isinstance(t, ast.Attribute):
             obj = self.eval(t.value, frame)
@@ -1483,12 +1586,26 @@ class Interp:
             raise Unsupported('augmented assignment target')
         return None
 
-    def _aug(self, opcls, cur, val):
+    def _aug(self, opcls, cur, val, holder=None):
         if opcls is ast.Add and isinstance(cur, list):
             # list += iterable mutates in place
             if isinstance(val, (SOpt, SChoice)):
                 val = self.resolve(val)
+            if isinstance(val, SList):
+                # a concrete list extended by a sequence of symbolic length: it becomes a (mutable) symbolic
+                # list.  The name is re-bound to the new object, which is only faithful when nothing else
+                # refers to the old list: checked (conservatively) through the garbage collector.
+                if holder is None or not _only_referenced_from(cur, holder):
+                    raise Unsupported('`+=` of a symbolic-length sequence to a concrete list that may be aliased')
+                from . import seqs
+                return seqs.copy(seqs.concat(self, list(cur), val))
             cur.extend(list(self.iterate(val)))
+            return cur
+        if opcls is ast.Add and isinstance(cur, SList) and not cur.immutable:
+            if isinstance(val, (SOpt, SChoice)):
+                val = self.resolve(val)
+            from . import seqs
+            seqs.method(self, cur, 'extend', [val], {})
             return cur
         return self.binop(opcls, cur, val)
 
@@ -1600,6 +1717,7 @@ class Interp:
         return None
 
     def s_Raise(self, node, frame):
+        self._reached(node, frame)
         if node.exc is None:
             cur = getattr(frame, '_cur_exc', None) or self._current_exception
             if cur is None:
@@ -1765,10 +1883,20 @@ class Interp:
 
     def s_ImportFrom(self, node, frame):
         import importlib
+        import importlib.util
+        modname = node.module
         if node.level:
-            raise Unsupported('relative import')
+            # relative import: resolved against the package of the module the function lives in
+            g = frame.info.globals
+            pkg = g.get('__package__') or (g.get('__name__', '').rpartition('.')[0])
+            if not pkg:
+                raise Unsupported('relative import outside a package')
+            try:
+                modname = importlib.util.resolve_name('.' * node.level + (node.module or ''), pkg)
+            except Exception as e:
+                raise PyRaise(e)
         try:
-            mod = importlib.import_module(node.module)
+            mod = importlib.import_module(modname)
         except Exception as e:
             raise PyRaise(e)
         for al in node.names:
@@ -1776,7 +1904,7 @@ class Interp:
                 v = getattr(mod, al.name)
             except AttributeError:
                 try:
-                    v = importlib.import_module(node.module + '.' + al.name)
+                    v = importlib.import_module(modname + '.' + al.name)
                 except Exception as e:
                     raise PyRaise(e)
             frame.locals[al.asname or al.name] = v
@@ -1879,6 +2007,20 @@ def _slice_sym(idx):
     if isinstance(idx, slice):
         return any(isinstance(x, Sym) for x in (idx.start, idx.stop, idx.step))
     return isinstance(idx, Sym)
+
+
+def _only_referenced_from(obj, holder):
+    """True iff no container other than the dict `holder` (a frame's locals) refers to `obj`.
+    Interpreter stack frames and function cells do not count (they are temporaries of the engine)."""
+    import gc
+    for r in gc.get_referrers(obj):
+        if r is holder:
+            continue
+        if isinstance(r, types.FrameType) or type(r).__name__ in ('cell',):
+            continue
+        if isinstance(r, (dict, list, tuple, set, frozenset)) or hasattr(r, '__dict__') or hasattr(r, '__slots__'):
+            return False
+    return True
 
 
 def _static_lookup(cls, name):
